@@ -49,3 +49,53 @@ Definition make_refines (p : pos) : bool :=
                     | _ => false end) (gen_legal_pure p).
 (* the model position is the mirror image (up to list order) of another one, on the spec level *)
 Definition is_mirror_of (p q : pos) : bool := pos_eqb (abs q) (Spec.mirror (abs p)).
+
+(* one attacker (plus an optional blocker and the attackers' parked king) on an otherwise empty board: the case
+   format of the exhaustive C09 enumeration.  Returns (model answer, specification answer). *)
+Definition att_case (attacker : cell) (from to blocker kingsq : Z) : bool * bool :=
+  let b0 := repeat Empty 128 in
+  let b1 := set b0 from attacker in
+  let b2 := if blocker <? 0 then b1 else set b1 blocker (Pc White Knight) in
+  match attacker with
+  | Empty => (false, false)
+  | Pc c k =>
+      let b3 := match k with King => b2 | _ => set b2 kingsq (Pc c King) end in
+      let king := match k with King => from | _ => kingsq end in
+      let pieces := match k with Pawn | King => [] | _ => [from] end in
+      let pawns := match k with Pawn => [from] | _ => [] end in
+      (is_under_check b3 pieces pawns king to, Spec.attacks (abs_board b3) (coords from) (coords to))
+  end.
+
+Definition spec_mate_score (n : nat) (p : pos) : option Z := Spec.mate_score n (abs p).
+(* is the move list legal when played in order (model generator), returns the index of the first illegal move or -1 *)
+Fixpoint line_legal (p : pos) (ms : list move) (i : Z) : Z :=
+  match ms with
+  | [] => -1
+  | m :: rest =>
+      match find (fun r => (mfrom (rm r) =? mfrom m) && (mto (rm r) =? mto m) && okind_eqb (mpromo (rm r)) (mpromo m)) (gen_legal_pure p) with
+      | None => i
+      | Some r => match make p (rm r) with Ok (p', _) => line_legal p' rest (i + 1) | Panic _ => i end
+      end
+  end.
+
+(* the same AND/OR mate search as Spec.mate_score, over the engine model's generator (equal by C01/C02; much faster) *)
+Fixpoint model_mate_score (n : nat) (p : pos) : option Z :=
+  let ms := gen_legal_pure p in
+  match ms with
+  | [] => if in_check p then Some 0 else None
+  | _ =>
+    match n with
+    | O => None
+    | S k =>
+        let vals := map (fun r => match make p (rm r) with
+                                  | Ok (p', _) => match model_mate_score k p' with
+                                                  | Some v => if v <=? 0 then Some (1 - v) else Some (- (v + 1))
+                                                  | None => None end
+                                  | Panic _ => None end) ms in
+        if existsb (fun v => match v with Some x => 0 <? x | None => false end) vals
+        then fold_left (fun acc v => match v with Some x => if 0 <? x then (match acc with Some y => Some (Z.min x y) | None => Some x end) else acc | None => acc end) vals None
+        else if forallb (fun v => match v with Some _ => true | None => false end) vals
+        then fold_left (fun acc v => match v, acc with Some x, Some y => Some (Z.min x y) | Some x, None => Some x | None, _ => acc end) vals None
+        else None
+    end
+  end.
